@@ -3,7 +3,7 @@ from __future__ import annotations
 
 from typing import Any, Dict, List
 
-from sim.gen_worker import gen_worker_script
+from sim.gen_worker import gen_worker_script, tier_knobs
 from sim.rng import stream
 from ._wcommon import (ASSUMPTIONS, COMPONENTS_REAL, COMPONENTS_STUB, Hist, Violation, default_nontrivial,  # noqa: F401
                        simplifications, simulate)
@@ -47,7 +47,7 @@ def gen(rs: int, tier: str, index: int) -> dict:
     r = stream(rs, "c12")
     kn = dict(KNOBS)
     kn["uncached_deps"] = r.random() < 0.3
-    s = gen_worker_script(rs, kn)
+    s = gen_worker_script(rs, tier_knobs(kn, tier, index))
     cands = [i for i, t in enumerate(s["tasks"]) if t.get("deps")]
     for m in s["messages"]:
         if m.get("kind", "valid") == "valid" and cands and r.random() < 0.85:
